@@ -783,6 +783,8 @@ def main():
     run = Run(PID, tier)
     from harness.lie import touch_all as _touch_all
     _touch_all()        # first uses of the Lie API happen BEFORE the models are derived (see harness/lie.py)
+    from harness import history as _history      # derivation histories in fresh interpreters (spec/DeriveHistory.tla)
+    _history.run_models(run, tier, ("rdd2:attitude", "rdd2:input_", "rdd2:position_control", "rdd2_loglinear:"))
     P = TIERS[tier]
     F = Fns(zmaxes=(0, 4))
     ctx = Ctx(run, F)
